@@ -1,5 +1,5 @@
 use crate::builtin::core::{eval, xcmp, xerr};
-use crate::util::xformatter::{Alignment, FillSpecs, XFormatting};
+use crate::util::xformatter::{Alignment, XFormatting};
 use crate::xtype::{XCallableSpec, XFuncSpec, XType, X_BOOL, X_INT, X_STRING};
 use crate::xvalue::{ManagedXError, ManagedXValue, XValue};
 
@@ -397,7 +397,8 @@ pub(crate) fn add_str_format<W, R, T>(
             if specs.fill_specs.is_none(){
                 return Ok(a0.into());
             }
-            if let Some(FillSpecs{alignment: Some(Alignment::RightWithSign), ..}) = specs.fill_specs{
+            // the effective alignment: a `0` flag without explicit alignment is sign-sensitive too
+            if specs.fill_specs.as_ref().map_or(false, |f| matches!(f.get_alignment(), Alignment::RightWithSign)){
                 return xerr(ManagedXError::new("str cannot be formatted with sign-sensitivity", rt)?);
             }
 
